@@ -4,7 +4,8 @@
 set -u
 export GOFLAGS=-mod=mod GOPROXY=off GOSUMDB=off GOTOOLCHAIN=local
 ID="$1"; MODE="$2"; shift 2
-V=/verif
+V=$(cd "$(dirname "$0")" && pwd)
+export VERIF_DIR=$V
 W=$V/.work/run.$$
 mkdir -p "$W" "$V/evidence"
 trap 'rm -rf "$W"' EXIT
